@@ -16,8 +16,9 @@ LEVEL = "exploration"
 RULE = ("event lists over {reply (value | exception) at t | never, expiry in {none, 0, 0.001, 1, 30, -1}, unrelated peer requests, peer "
         "requests whose handler sleeps across the expiry, callbacks registered before / after readiness, ready / error / expired / "
         "value / wait at seeded instants}, created through async_request(timeout=), async_() + set_expiry, timed(), and sync_request "
-        "with the configured timeout; plus enumerated boundary lists (reply at expiry -eps / exactly / +eps). distinct = the event "
-        "list; non-trivial = at least one query after creation")
+        "with the configured timeout; plus enumerated boundary lists (reply at expiry -eps / exactly / +eps); plus schedules in which "
+        "callbacks are registered by one thread while another thread dispatches the reply (line-level pre-emption inside "
+        "add_callback and __call__). distinct = the event list / switch trace; non-trivial = at least one query after creation")
 ASSUMPTIONS = ["'reply arrives' means 'is dispatched': bytes sitting unread in the buffer past the expiry are a late reply; `ready` serves "
                "at most what poll_all(0) serves (one transaction) and then answers",
                "a negative timeout means no expiry (rpyc.lib.Timeout defines it so; the statement is silent)",
@@ -376,8 +377,76 @@ def compare(ctx, case):
             ctx.violation("C15/%s/callback-twice" % key_via, "a callback ran twice: %r" % (cbs,), wit)
 
 
+def concurrent_registration(ctx, seed, policy, p_switch, ncb):
+    """callbacks registered by one thread while ANOTHER thread (a background server) receives and dispatches the reply:
+    line-level pre-emption inside add_callback and __call__; every callback must run exactly once, in registration order"""
+    import rpyc
+    from rpyc.core.channel import Channel
+    from rpyc.core import consts
+    from rpyc.core.async_ import AsyncResult
+    sched = vsched.Sched(seed=seed, policy=policy, p_switch=p_switch, max_steps=60000)
+    net = vnet.Net(waiter=vsched.SchedWaiter(sched))
+    conn = rpyc.VoidService()._connect(Channel(net.a), {})
+    vsched.simulate_connection(conn, sched, "A")
+    peer = Peer(sched, net.b, [(0.0, "reply", (False, ("v", 1)))], None)
+    ran = []
+    state = dict(done=False, ar=None)
+
+    def registrar():
+        ar = conn.async_request(consts.HANDLE_PING, "tok", timeout=30)
+        state["ar"] = ar
+        for i in range(ncb):
+            ar.add_callback(lambda res, i=i: ran.append(i))
+        try:
+            ar.wait()
+        finally:
+            state["done"] = True
+            conn.close()
+
+    def bg():
+        while not state["done"]:
+            try:
+                conn.serve(0.05)
+            except EOFError:
+                return
+    codes = sched.instrument([AsyncResult.add_callback.__code__, AsyncResult.__call__.__code__])
+    try:
+        with vsched.patched_time(sched, spawn=False):
+            sched.spawn(registrar, name="registrar")
+            sched.spawn(bg, name="bg")
+            sched.spawn(peer.run, name="peer")
+            ok = sched.run(watchdog=30)
+    finally:
+        vsched.Sched.uninstrument(codes)
+        try:
+            conn.close()
+        except BaseException:
+            pass
+    ctx.case(("concurrent-registration", ncb, sched.trace_hash()), nontrivial=sched.preemptions > 0)
+    ctx.count("concurrent_registration_runs")
+    wit = dict(mode="concurrent-registration", seed=list(seed), policy=policy, p_switch=p_switch, callbacks=ncb)
+    if not ok:
+        ctx.inconclusive("wall-clock watchdog in concurrent-registration run")
+        return
+    if sched.deadlock or sched.aborting:
+        ctx.violation("C15/concurrent-registration/hang", "run did not finish: %r %r" % (sched.deadlock, sched.abort_reason), wit)
+        return
+    missing = [i for i in range(ncb) if i not in ran]
+    dup = sorted({i for i in ran if ran.count(i) > 1})
+    if missing:
+        ctx.violation("C15/concurrent-registration/callback-lost", "callback(s) %r registered while another thread dispatched the reply never ran" % (missing,), wit)
+    if dup:
+        ctx.violation("C15/concurrent-registration/callback-twice", "callback(s) %r ran twice" % (dup,), wit)
+    if not missing and not dup and ran != sorted(ran):
+        ctx.violation("C15/concurrent-registration/callback-order", "callbacks ran in the order %r" % (ran,), wit)
+
+
 def run(ctx):
     rng = ctx.rng
+    for i in range(ctx.budget(500, 80000)):
+        concurrent_registration(ctx, (ctx.seed, ctx.shard[0], i), "random" if i % 3 else "pct", rng.choice([0.1, 0.3, 0.6]), rng.choice([1, 2, 3]))
+        if ctx.enough():
+            return
     if ctx.shard[0] == 0:
         for case in boundary_cases():
             compare(ctx, case)
